@@ -51,7 +51,7 @@ def _valid_sources(rng):
 
 
 def _damage(rng, text, k):
-    kinds = ['longchain', 'litlocals', 'widestr', 'scratch', 'inhlong', 'incmacro', 'inclong', 'manystrings', 'bigprog', 'incself2', 'efunglobal', 'efunglobal', 'intmin', 'efunlocal', 'efunlocal', 'redeclare', 'redeclare', 'del', 'ins', 'dup', 'trunc', 'unstr', 'uncomment', 'untext', 'unlit', 'if', 'endif', 'else', 'defself', 'defmutual', 'macroargs', 'incself', 'incmissing',
+    kinds = ['biginit', 'longchain', 'litlocals', 'widestr', 'scratch', 'inhlong', 'incmacro', 'inclong', 'manystrings', 'bigprog', 'incself2', 'efunglobal', 'efunglobal', 'intmin', 'efunlocal', 'efunlocal', 'redeclare', 'redeclare', 'del', 'ins', 'dup', 'trunc', 'unstr', 'uncomment', 'untext', 'unlit', 'if', 'endif', 'else', 'defself', 'defmutual', 'macroargs', 'incself', 'incmissing',
              'incdeep', 'litdeep', 'locals', 'args', 'strings', 'funcs', 'longline', 'longident', 'longstr', 'dupfun', 'conflict', 'random', 'nul', 'high', 'inhmissing', 'inhlate', 'superunknown', 'defprobe', 'pragma', 'unlit3', 'unlit3', 'iffatal']
     kind = rng.choice(kinds)
     if os.environ.get('C02_ONLY_KIND'): kind = os.environ['C02_ONLY_KIND']
@@ -78,6 +78,12 @@ def _damage(rng, text, k):
     elif kind == 'bigprog':
         nf = rng.choice((20, 40)); per = rng.choice((250, 450))
         t = text + ''.join('\nint zbig%d(int i) {\n%s return i; }' % (f, ''.join(' i = i + %d;\n' % (12345 + j) for j in range(per))) for f in range(nf)) + '\nint zlast() { return zbig%d(1); }\n' % (nf - 1)
+    elif kind == 'biginit':
+        # a "data table" object: far more code in the initialisers of global variables than in functions (the initialiser
+        # block is appended to the program in one piece at the end of the compilation)
+        na = rng.choice((8, 20, 48, 90)); per = rng.choice((60, 100, 200))
+        tab = ''.join('mixed *ztab%d = ({ %s });\n' % (a, ', '.join(str(100000 + a * per + j) for j in range(per))) for a in range(na))
+        t = (tab + 'int zsum() { return ztab0[1] + ztab%d[%d]; }\n' % (na - 1, per - 1)) if rng.random() < 0.6 else text + '\n' + tab
     elif kind == 'incself2':
         t = '#include "/x/self2.h"\n' + text
     elif kind == 'litlocals':
